@@ -267,7 +267,9 @@ NOT_APPLICABLE = {
 
 # rules whose crates also exist in the arc build set (memory, lexer, parser, bytecode, runtime, koto)
 _ARC_OK = {"vm", "compiler", "placeholder", "borrow", "iters", "arith", "tc", "values", "dispatch", "enc", "strings"}
-_NOT_ARC = {"rule_indent_chain"}   # needs the koto crate's serde-enabled error conversions only partially; rc suffices
+# rules whose subjects live in crates that only the default (rc) workspace build contains (cli, serde, format, ...):
+# their instance floors cannot be met on the arc facts, and nothing they look at depends on the arc feature
+_NOT_ARC = {"rule_indent_chain", "rule_accum", "rule_char_units", "rule_float_notation", "rule_serde_narrow"}
 
 
 def arc_variants(prop):
